@@ -67,7 +67,7 @@ def main():
         meta["checks"] = {}
         for c in checks:
             t0 = time.time()
-            rcc, outc = sh(f"VERIF_REPO={wt} ./check {c} {tier_args}", cwd=VERIF, timeout=7200)
+            rcc, outc = sh(f"VERIF_EVIDENCE_DIR={wt}/.evidence VERIF_REPO={wt} ./check {c} {tier_args}", cwd=VERIF, timeout=7200)
             lines = [l for l in outc.splitlines() if l.startswith(("violation", "VIOLATION", "HARNESS", "[" + c))]
             meta["checks"][c] = {"rc": rcc, "wall_s": round(time.time() - t0), "violation_lines": [l[:300] for l in lines if l.startswith("violation")][:6],
                                  "summary": [l for l in lines if l.startswith("[")][-1:] }
